@@ -300,6 +300,7 @@ def run(ctx):
     ctx.tlc("TreeSet", "TreeSetProps.cfg")
     if not ctx.quick:
         ctx.tlc("TreeSet", "TreeSetProps2.cfg", timeout=1500)
+        ctx.tlc("TreeSet", "TreeSetProps3.cfg", timeout=1500)
 
     # ---- binding A: product exploration
     plan = [("TreeSet.cfg", "k8i1", 110), ("TreeSetTokens.cfg", "tokens", 110), ("TreeSetTwoIt.cfg", "k4i2", 110)]
